@@ -430,14 +430,33 @@ impl<'l, F: AsFd> Async<'l, F> {
             final(disp_cell).interest == old(disp_cell).interest, final(disp_cell).last_readiness == old(disp_cell).last_readiness,
 //@ endslice
 
+//@ slice src/io.rs / impl Async<'l, F> / fn new :: stmts <<let dispatcher = Rc::new(RefCell::new(IoDispatcher {>> .. <<let dispatcher = Rc::new(RefCell::new(IoDispatcher {>> props=C17,C16 name=Async::new::dispatcher_init
+//@ sig
+    /// S1 slice of Async::new: the statement that builds the adapter's dispatcher (D3 drops the windows field initialiser).
+    fn new_dispatcher_init(fd: &F) -> (r: Rc<RefCell<IoDispatcher>>)
+//@ spec
+        ensures
+            // C16/C17: a fresh adapter watches exactly the wrapped object's descriptor, is not yet registered, waits for
+            // nothing, has no stored waker and no recorded readiness
+            ({
+                let d = crate::ext::refcell_init(&*r);
+                &&& d.fd as int == crate::ext::fd_raw(fd)
+                &&& d.token is None && d.waker is None && !d.is_registered
+                &&& d.interest == Interest::EMPTY && d.last_readiness == Readiness::EMPTY
+            }),
+//@ entry
+        proof { broadcast use crate::ext::axiom_fd_raw_ref; }
+//@ tail
+        dispatcher
+//@ endslice
+
 //@ slice src/io.rs / impl Async<'l, F> / fn new :: stmts <<if let Err(err) = unsafe { inner.register(&dispatcher) }>> .. <<dispatcher.borrow_mut().is_registered = true;>> props=C15,C16,C17 name=Async::new::register_step
 //@ rw R10 * <<dispatcher.borrow_mut()>> => <<disp_cell>>
 //@ sig
     /// S1 slice of Async::new: the statement that registers the freshly built dispatcher and cleans up if that fails,
     /// and the one that records a successful registration. Free variables `inner`, `dispatcher`, `fd`, `was_nonblocking`
-    /// become parameters; R10: `dispatcher.borrow_mut()` becomes `disp_cell`. Dropped: everything before (switch to
-    /// non-blocking, dispatcher construction, slot allocation -- it needs an unsizing coercion Verus does not support) and
-    /// after (the transmute that erases `Data`, the struct literal).
+    /// become parameters; R10: `dispatcher.borrow_mut()` becomes `disp_cell`. (The statements before and after are the other
+    /// Async::new slices; the only statement of Async::new under no contract is the transmute that erases `Data`.)
     fn new_register_step<Data>(inner: Rc<LoopInner<'l, Data>>, dispatcher: Rc<RefCell<IoDispatcher>>, disp_cell: &mut IoDispatcher, fd: F, was_nonblocking: bool) -> (r: crate::Result<()>)
 //@ spec
         requires
@@ -455,6 +474,17 @@ impl<'l, F: AsFd> Async<'l, F> {
         proof { broadcast use crate::ext::axiom_fd_raw_ref; }
 //@ tail
         Ok(())
+//@ endslice
+
+//@ slice src/io.rs / impl Async<'l, F> / fn new :: after <<let inner: Rc<dyn IoLoopInner + 'l> =>> props=C17 name=Async::new::result
+//@ sig
+    /// S1 slice of Async::new: its result expression (after the transmute that erases `Data`, which is dropped).
+    fn new_result(fd: F, dispatcher: Rc<RefCell<IoDispatcher>>, inner: Rc<dyn IoLoopInner + 'l>, was_nonblocking: bool) -> (r: crate::Result<Async<'l, F>>)
+//@ spec
+        ensures
+            // C17: the adapter remembers the blocking mode the fd had BEFORE (what Drop / into_inner restore), its own
+            // dispatcher and loop, and owns the object
+            r matches Ok(a) && a.was_nonblocking == was_nonblocking && a.dispatcher == dispatcher && a.inner == inner && a.fd == Some(fd),
 //@ endslice
 
 //@ slice src/io.rs / impl Drop for Async<'_, F> / fn drop :: body props=C16,C17 name=Async::drop
